@@ -338,3 +338,45 @@ func VH_c10_time_trans() {
 	a, b, c := zz.Time("a"), zz.Time("b"), zz.Time("c")
 	transLaw(ord.Time, a, b, c, "Time")
 }
+
+
+// ---- ThenComparing with comparators whose Compare returns magnitudes other than 1, and right-nested chains
+
+func wideBy(k func(int) int) fp.Ord[int] {
+	return ord.FromCompare(func(a, b int) int {
+		switch {
+		case k(a) < k(b):
+			return -5
+		case k(a) > k(b):
+			return 7
+		}
+		return 0
+	})
+}
+
+func VH_c10_then_comparing_wide() {
+	a, b := zz.Int("a"), zz.Int("b")
+	k1, k2, k3 := keyOf("k1"), keyOf("k2"), keyOf("k3")
+	var o fp.Ord[int]
+	l := ""
+	three := false
+	switch zz.Choice("shape", 4) {
+	case 0:
+		o, l = wideBy(k1).ThenComparing(wideBy(k2)), "ThenComparing(wide, wide)"
+	case 1:
+		o, l = ord.ContraMap(ord.Given[int](), k1).ThenComparing(wideBy(k2)), "ThenComparing(given, wide)"
+	case 2:
+		o, l, three = wideBy(k1).ThenComparing(wideBy(k2).ThenComparing(wideBy(k3))), "right-nested ThenComparing", true
+	case 3:
+		o, l, three = ord.ContraMap(ord.Given[int](), k1).ThenComparing(ord.ContraMap(ord.Given[int](), k2).ThenComparing(ord.ContraMap(ord.Given[int](), k3))), "right-nested ThenComparing (given)", true
+	}
+	want := k1(a) < k1(b) || (k1(a) == k1(b) && k2(a) < k2(b))
+	eqv := k1(a) == k1(b) && k2(a) == k2(b)
+	if three {
+		want = want || (k1(a) == k1(b) && k2(a) == k2(b) && k3(a) < k3(b))
+		eqv = eqv && k3(a) == k3(b)
+	}
+	zz.Assert(o.Less(a, b) == want, l+": later orders only break ties")
+	zz.Assert(o.Eqv(a, b) == eqv, l+": Eqv needs all keys equal")
+	pairLaws(o, a, b, l)
+}
